@@ -218,4 +218,8 @@ def init (flags k kc c cc : Nat) : St :=
     sqMem := fun _ => 0, cqMem := fun _ => 0,
     filled := [], flushed := [], consumed := [], posted := [], reaped := [] }
 
+/-- `IoUring::needs_wakeup`: the kernel's SQ flags word has IORING_SQ_NEED_WAKEUP (bit 0) set — whatever the other
+bits (IORING_SQ_CQ_OVERFLOW = bit 1, IORING_SQ_TASKRUN = bit 2) say -/
+def needsWakeup (flagsWord : Nat) : Bool := flagsWord % 2 == 1
+
 end TinyVerif.Ring
